@@ -143,15 +143,60 @@ func solveOne(e *Enc, o *Obligation, idx int, opts solveOpts) {
 		}
 		return
 	}
-	// stage B
-	fileB := write(".full", false)
-	o.File = fileB
+	// stage I (goal-directed instantiation) and stage B (full query) run side by side;
+	// the first unsat wins
 	modelA := ""
 	if a.result == "sat" {
 		modelA = a.out
 	}
-	b, ok := race(solvers, fileB, opts.TimeoutS)
-	o.Seconds += b.seconds
+	type stageAns struct {
+		ans   solverAnswer
+		stage string
+		file  string
+		ok    bool
+	}
+	ch := make(chan stageAns, 2)
+	pending := 0
+	if !o.IsCover {
+		if q, ok := e.ctx.instantiatedQuery(goalNeg, o.Extra); ok {
+			fileI := base + ".inst.smt2"
+			os.WriteFile(fileI, []byte(hdr+q), 0o644)
+			pending++
+			go func() {
+				ai := runSolver(solvers[0], fileI, opts.TimeoutS)
+				if ai.result != "unsat" {
+					if bi := runSolver(solvers[1], fileI, opts.TimeoutS); bi.result == "unsat" {
+						ai = bi
+					}
+				}
+				ch <- stageAns{ai, "/instantiated", fileI, ai.result == "unsat"}
+			}()
+		}
+	}
+	fileB := write(".full", false)
+	pending++
+	go func() {
+		b, ok := race(solvers, fileB, opts.TimeoutS)
+		ch <- stageAns{b, "", fileB, ok}
+	}()
+	var b solverAnswer
+	ok := false
+	for i := 0; i < pending; i++ {
+		sa := <-ch
+		o.Seconds += sa.ans.seconds
+		if sa.ok && sa.ans.result == "unsat" {
+			o.File = sa.file
+			record(sa.ans, sa.stage)
+			if opts.All && !o.IsCover {
+				crossCheck(o, sa.file, opts)
+			}
+			return
+		}
+		if sa.stage == "" {
+			b, ok = sa.ans, sa.ok
+			o.File = sa.file
+		}
+	}
 	if !ok && opts.Retry && modelA == "" {
 		for _, sd := range solvers[:2] {
 			b2 := runSolver(sd, fileB, 6*opts.TimeoutS)
@@ -164,9 +209,6 @@ func solveOne(e *Enc, o *Obligation, idx int, opts solveOpts) {
 	}
 	if ok {
 		record(b, "")
-		if b.result == "unsat" && opts.All && !o.IsCover {
-			crossCheck(o, fileB, opts)
-		}
 		return
 	}
 	if modelA != "" {
